@@ -14,16 +14,16 @@ def jaq_bin():
     return _BIN
 
 
-def run_one(args, stdin=b"", cwd=None, timeout=20, env=None):
+def run_one(args, stdin=b"", cwd=None, timeout=20, env=None, merge=False):
     e = dict(os.environ)
     e["RUST_BACKTRACE"] = "0"
     e["NO_COLOR"] = "1"
     if env:
         e.update(env)
     try:
-        p = subprocess.run([jaq_bin()] + list(args), input=stdin, stdout=subprocess.PIPE, stderr=subprocess.PIPE,
+        p = subprocess.run([jaq_bin()] + list(args), input=stdin, stdout=subprocess.PIPE, stderr=subprocess.STDOUT if merge else subprocess.PIPE,
                            cwd=cwd, timeout=timeout, env=e)
-        return p.returncode, p.stdout, p.stderr
+        return p.returncode, p.stdout, p.stderr or b""
     except subprocess.TimeoutExpired:
         return -999, b"", b"timeout"
 
@@ -32,9 +32,47 @@ def run_many(jobs, workers=None):
     """jobs: list of dict(args=[...], stdin=b'', cwd=None) -> list of (rc, out, err)"""
     jaq_bin()
     with concurrent.futures.ThreadPoolExecutor(max_workers=workers or core.NCPU) as ex:
-        res = list(ex.map(lambda j: run_one(j["args"], j.get("stdin", b""), j.get("cwd"), j.get("timeout", 20), j.get("env")), jobs))
+        res = list(ex.map(lambda j: run_one(j["args"], j.get("stdin", b""), j.get("cwd"), j.get("timeout", 20), j.get("env"), j.get("merge", False)), jobs))
     # a time-out under load is not a result: such runs are repeated alone with three times the time
     for i, (j, r) in enumerate(zip(jobs, res)):
         if r[0] == -999:
-            res[i] = run_one(j["args"], j.get("stdin", b""), j.get("cwd"), 3 * j.get("timeout", 20), j.get("env"))
+            res[i] = run_one(j["args"], j.get("stdin", b""), j.get("cwd"), 3 * j.get("timeout", 20), j.get("env"), j.get("merge", False))
     return res
+
+
+def dialogue(args, answers, timeout=10, cwd=None):
+    """runs jaq with pipes on both sides and sends the k-th answer only after the k-th line of output has arrived;
+    returns (lines read, status) or (lines read so far, "stalled") when an expected line does not arrive in time"""
+    import select
+    e = dict(os.environ)
+    e["RUST_BACKTRACE"] = "0"
+    e["NO_COLOR"] = "1"
+    p = subprocess.Popen([jaq_bin()] + list(args), stdin=subprocess.PIPE, stdout=subprocess.PIPE, stderr=subprocess.DEVNULL, cwd=cwd, env=e, bufsize=0)
+    lines, buf = [], b""
+    try:
+        for a in answers:
+            while b"\n" not in buf:
+                r, _, _ = select.select([p.stdout], [], [], timeout)
+                if not r:
+                    return lines, "stalled"
+                chunk = os.read(p.stdout.fileno(), 4096)
+                if not chunk:
+                    return lines, "closed"
+                buf += chunk
+            line, buf = buf.split(b"\n", 1)
+            lines.append(line)
+            if a is not None:
+                p.stdin.write(a)
+                p.stdin.flush()
+        p.stdin.close()
+        rest = buf + p.stdout.read()
+        lines += [l for l in rest.split(b"\n") if l]
+        return lines, p.wait(timeout=timeout)
+    except (BrokenPipeError, subprocess.TimeoutExpired):
+        return lines, "broken"
+    finally:
+        try:
+            p.kill()
+        except OSError:
+            pass
+        p.wait()
